@@ -355,14 +355,15 @@ Proof.
   - exists OUnlock. unfold bstep. rewrite Hpc. eauto.
 Qed.
 
-(** In the semantics without spurious wake-ups: if all n participants cross the barrier K times, the only
+(** With or without spurious wake-ups (without them is the semantics in which rest states with sleepers could
+    exist at all): if all n participants cross the barrier K times, the only
     reachable rest state is the one where every participant has completed all K generations -- for every
     n >= 1 and every K (the barrier is reusable; no wake-up is lost, no generation is overtaken). *)
-Theorem bm_reusable : forall n sil K s t,
-  1 <= n -> breachable false n sil (repeat K n) s -> bquiescent false s -> t < n ->
+Theorem bm_reusable : forall spur n sil K s t,
+  1 <= n -> breachable spur n sil (repeat K n) s -> bquiescent spur s -> t < n ->
   bpc (bthr s t) = BDone /\ gen (bthr s t) = K.
 Proof.
-  intros n sil K s t Hn R Q Ht.
+  intros spur n sil K s t Hn R Q Ht.
   assert (Hl : length (repeat K n) = n) by apply repeat_length.
   rewrite <- Hl in R at 1. rewrite <- Hl in Hn.
   pose proof (BInv_reachable _ _ _ _ Hn R) as I. rewrite Hl in Hn.
@@ -370,7 +371,7 @@ Proof.
   (* A: the mutex is free *)
   assert (Ho : bowner s = None).
   { destruct (bowner s) as [v|] eqn:Ho; auto.
-    destruct (holder_enabled false _ _ _ I Ho) as (o & s' & Hs). rewrite (Q (v, o)) in Hs. discriminate. }
+    destruct (holder_enabled spur _ _ _ I Ho) as (o & s' & Hs). rewrite (Q (v, o)) in Hs. discriminate. }
   (* B: every participant sleeps in the wait set or is done *)
   assert (B : forall u, u < n ->
               (bpc (bthr s u) = BSleep /\ In u (arrived s) /\ gen (bthr s u) = bG s /\ 1 <= left (bthr s u)
@@ -408,6 +409,76 @@ Proof.
   assert (Hle : length (seq 0 n) <= length (arrived s)).
   { apply NoDup_incl_length; [apply seq_NoDup|]. intros u Hu. apply in_seq in Hu. apply All. lia. }
   rewrite seq_length in Hle. pose proof (i_lt _ _ I). lia.
+Qed.
+
+Lemma all_or_missing : forall (l : list nat) n,
+  (forall u, u < n -> In u l) \/ (exists u, u < n /\ ~ In u l).
+Proof.
+  intros l. induction n as [|n IH].
+  - left. intros u Hu. lia.
+  - destruct IH as [A|(u & Hu & Hn)].
+    + destruct (in_dec Nat.eq_dec n l) as [Hi|Hi].
+      * left. intros u Hu. destruct (Nat.eq_dec u n) as [->|Hne]; auto. apply A. lia.
+      * right. exists n. split; auto.
+    + right. exists u. split; auto.
+Qed.
+
+(** The same for ARBITRARY numbers of crossings per participant: in a reachable rest state a thread is either
+    finished or it sleeps inside generation g although g < its own number of crossings -- and then some
+    participant has finished for good after exactly g crossings, i.e. never enters generation g.  A thread
+    rests inside the barrier only because a participant is missing, never because a wake-up was lost. *)
+Theorem bm_rest_state : forall spur sil gens s t,
+  1 <= length gens -> breachable spur (length gens) sil gens s -> bquiescent spur s -> t < length gens ->
+  (bpc (bthr s t) = BDone /\ gen (bthr s t) = nth t gens 0) \/
+  (bpc (bthr s t) = BSleep /\ gen (bthr s t) < nth t gens 0 /\
+   exists u, u < length gens /\ bpc (bthr s u) = BDone /\ nth u gens 0 = gen (bthr s t)).
+Proof.
+  intros spur sil gens s t Hn R Q Ht.
+  pose proof (BInv_reachable _ _ _ _ Hn R) as I.
+  assert (Hbn : bn s = length gens) by apply (i_n _ _ I).
+  set (n := length gens) in *.
+  assert (Ho : bowner s = None).
+  { destruct (bowner s) as [v|] eqn:Ho; auto.
+    destruct (holder_enabled spur _ _ _ I Ho) as (o & s' & Hs). rewrite (Q (v, o)) in Hs. discriminate. }
+  (* B: every participant sleeps in the wait set or is done *)
+  assert (B : forall u, u < n ->
+              (bpc (bthr s u) = BSleep /\ In u (arrived s) /\ gen (bthr s u) = bG s /\ 1 <= left (bthr s u)
+               /\ gen (bthr s u) + left (bthr s u) = nth u gens 0) \/
+              (bpc (bthr s u) = BDone /\ gen (bthr s u) = bG s /\ gen (bthr s u) = nth u gens 0)).
+  { intros u Hu. rewrite <- Hbn in Hu.
+    pose proof (i_thr _ _ I u Hu) as T. unfold tinv in T.
+    rewrite Hbn in Hu.
+    pose proof (i_owner _ _ I u) as Ou. rewrite Ho in Ou.
+    destruct (bpc (bthr s u)) eqn:Hpc; cbn in Ou.
+    - exfalso. destruct (left (bthr s u)) eqn:El.
+      + specialize (Q (u, OEnd)). unfold bstep in Q. rewrite Hpc, El in Q. discriminate.
+      + specialize (Q (u, OIn (gen (bthr s u)))). unfold bstep in Q. rewrite Hpc, El, Nat.eqb_refl in Q. discriminate.
+    - exfalso. specialize (Q (u, OLock)). unfold bstep in Q. rewrite Hpc, Ho in Q. discriminate.
+    - exfalso. destruct Ou as [_ Ou]. specialize (Ou eq_refl). discriminate.
+    - left. destruct (mem u (bsleepers s)) eqn:M.
+      + apply mem_In in M. destruct (i_sleep _ _ I u M) as (_ & [Hc|(v & Hv & _)]); [|congruence].
+        assert (Hin : In u (arrived s)).
+        { apply (i_arr _ _ I). rewrite Hbn, Hpc. cbn. auto. }
+        destruct T as (T1 & T2 & [(C1 & C2)|(C1 & _)]).
+        * repeat split; auto.
+        * exfalso. rewrite Hc in C1. symmetry in C1. now apply flip_neq in C1.
+      + exfalso. specialize (Q (u, OWaitE false)). unfold bstep in Q. rewrite Hpc, Ho, M in Q. discriminate.
+    - exfalso. destruct Ou as [_ Ou]. specialize (Ou eq_refl). discriminate.
+    - exfalso. destruct Ou as [_ Ou]. specialize (Ou eq_refl). discriminate.
+    - exfalso. destruct Ou as [_ Ou]. specialize (Ou eq_refl). discriminate.
+    - exfalso. destruct T as (_ & T2 & T3).
+      specialize (Q (u, OOut (gen (bthr s u) - 1))). unfold bstep in Q. rewrite Hpc in Q.
+      replace (gen (bthr s u) - 1 + 1) with (gen (bthr s u)) in Q by lia. rewrite Nat.eqb_refl in Q. discriminate.
+    - right. destruct T as (T1 & T2 & T3). repeat split; auto. lia. }
+  destruct (B t Ht) as [(Hs & Hin & Hg & Hleft & HK)|(Hd & _ & HK)]; [right|left; auto].
+  split; auto. split; [lia|].
+  destruct (all_or_missing (arrived s) n) as [All|(u & Hu & Hmiss)].
+  - exfalso.
+    assert (Hle : length (seq 0 n) <= length (arrived s)).
+    { apply NoDup_incl_length; [apply seq_NoDup|]. intros u Hu. apply in_seq in Hu. apply All. lia. }
+    rewrite seq_length in Hle. pose proof (i_lt _ _ I). lia.
+  - exists u. split; auto.
+    destruct (B u Hu) as [(_ & Hin' & _)|(Hd' & Hg' & HK')]; [contradiction|]. split; auto. lia.
 Qed.
 
 (** ---------------------------------------------------------------- boolean enabledness is complete *)
